@@ -38,6 +38,15 @@ def _havoc_local(it, name, cur, tag):
     return cur
 
 
+def _havoc_shaped_locals(it, spec, frame, tag):
+    if not spec.locals:
+        return
+    from .driver import build_sym
+    for name, node in spec.locals.items():
+        it.ctx.fresh_n += 1
+        frame.locals[name] = build_sym(it, node, "loop.%s.%s!%d" % (tag, name, it.ctx.fresh_n), {})
+
+
 def _call_spec(it, fi, frame, extra=None):
     env = dict(frame.locals)
     if extra:
@@ -79,6 +88,7 @@ def run_while_with_invariant(it, st, frame, spec):
     for n in _assigned_names(st):
         if n in frame.locals:
             frame.locals[n] = _havoc_local(it, n, frame.locals[n], tag)
+    _havoc_shaped_locals(it, spec, frame, tag)
     ctx.assume(ops.truthy(it, _call_spec(it, inv, frame)))
     ctx.fresh_n += 1
     mode = SBool(z3.Bool("loopmode!%d" % ctx.fresh_n))
@@ -111,6 +121,8 @@ def run_for_with_invariant(it, st, frame, spec):
     tag = _name(it, frame, st)
     oname = ctx.ghost.get("contract_name", "?") + "." + tag
     rv = it.eval(st.iter, frame)
+    if isinstance(rv, Ref):
+        return run_foreach_with_invariant(it, st, frame, spec, rv)
     if not isinstance(rv, RangeVal) or rv.step != 1:
         raise Unsupported("for-loop invariant needs range() with step 1")
     n = sym.imax(0, sym.sub(rv.stop, rv.start))
@@ -121,6 +133,7 @@ def run_for_with_invariant(it, st, frame, spec):
     for nm in _assigned_names(st):
         if nm in frame.locals:
             frame.locals[nm] = _havoc_local(it, nm, frame.locals[nm], tag)
+    _havoc_shaped_locals(it, spec, frame, tag)
     ctx.fresh_n += 1
     lo, hi = sym.rng(n)
     k = ctx.input_int("loop.%s.k!%d" % (tag, ctx.fresh_n), 0, max(hi, 0))
@@ -147,4 +160,67 @@ def run_for_with_invariant(it, st, frame, spec):
     # after a completed loop the target keeps its last value (if the loop ran at all)
     if ctx.branch(sym.cmp(">", n, 0)):
         it.assign(st.target, sym.sub(sym.add(rv.start, n), 1), frame)
+    it.exec_block(st.orelse, frame)
+
+
+def run_foreach_with_invariant(it, st, frame, spec, coll):
+    """`for x in <name>` over a set / list whose elements are interchangeable as far as the body
+    can tell: the body is proved once for an ARBITRARY element from an arbitrary state satisfying
+    the invariant, which covers every size and every iteration order.  Sound only if the body
+    neither reads nor changes the collection -- checked syntactically (the iterable must be a
+    plain local name that the body does not mention) -- and the invariant does not mention it."""
+    from .core import HSet, HList
+    ctx = it.ctx
+    prog = it.program
+    inv = prog.func(spec.inv)
+    tag = _name(it, frame, st)
+    oname = ctx.ghost.get("contract_name", "?") + "." + tag
+    if not isinstance(st.iter, ast.Name):
+        raise Unsupported("for-each invariant needs a plain local name as the iterable")
+    cname = st.iter.id
+    for sub in st.body:
+        for n in ast.walk(sub):
+            if isinstance(n, ast.Name) and n.id == cname:
+                raise Unsupported("for-each invariant: the body mentions the collection %s" % cname)
+    if cname in [a.arg for a in inv.node.args.args]:
+        raise Unsupported("for-each invariant: the invariant mentions the collection %s" % cname)
+    o = ctx.obj(coll)
+    if not isinstance(o, (HSet, HList)):
+        raise Unsupported("for-each invariant over %s" % type(o).__name__)
+    items = list(o.items)
+    ctx.oblige(oname + ".entry", ops.truthy(it, _call_spec(it, inv, frame)), info={"loop": tag})
+    if spec.havoc:
+        for hk in spec.havoc:
+            _call_spec(it, prog.func(hk), frame)
+    tnames = [n.id for n in ast.walk(st.target) if isinstance(n, ast.Name)]
+    for nm in _assigned_names(st):
+        if nm in frame.locals and nm not in tnames:
+            frame.locals[nm] = _havoc_local(it, nm, frame.locals[nm], tag)
+    _havoc_shaped_locals(it, spec, frame, tag)
+    ctx.assume(ops.truthy(it, _call_spec(it, inv, frame)))
+    ctx.fresh_n += 1
+    mode = SBool(z3.Bool("loopmode!%d" % ctx.fresh_n))
+    if ctx.branch(mode):
+        if not items:
+            raise PathEnd()
+        pick = items[-1]
+        for cand in items[:-1]:
+            ctx.fresh_n += 1
+            if ctx.branch(SBool(z3.Bool("pick!%d" % ctx.fresh_n))):
+                pick = cand
+                break
+        it.assign(st.target, pick, frame)
+        fr0 = _call_spec(it, prog.func(spec.frame), frame) if spec.frame else None
+        try:
+            it.exec_block(st.body, frame)
+        except BreakSig:
+            _frame_check(it, spec, frame, fr0, oname, tag)
+            return
+        except ContinueSig:
+            pass
+        _frame_check(it, spec, frame, fr0, oname, tag)
+        ctx.oblige(oname + ".preserved", ops.truthy(it, _call_spec(it, inv, frame)), info={"loop": tag})
+        ctx.notes.append("loop-step " + tag)
+        raise PathEnd()
+    # exit: the target keeps whatever it was bound to last (unknown): drop it if it was unbound before
     it.exec_block(st.orelse, frame)
